@@ -602,6 +602,17 @@ class State:
         finally:
             os.unlink(path)
 
+    def prove_quick(self, goal):
+        """stage 1 only (E-matching under the usual resource limit): `proved` or `unknown`"""
+        t0 = time.time()
+        self.solver.push()
+        self.solver.set("timeout", Z3_TIMEOUT_MS)
+        self.solver.set("rlimit", Z3_RLIMIT)
+        self.solver.add(z3.Not(goal))
+        r = self.solver.check()
+        self.solver.pop()
+        return ("proved" if r == z3.unsat else "unknown"), time.time() - t0, None, "z3-ematch"
+
     def prove(self, goal):
         """returns (verdict, seconds, model_or_None, detail)
 
